@@ -368,3 +368,135 @@ pub fn cmd_replay(args: &[String]) -> i32 {
     println!("{}", json!({"actions": n}));
     0
 }
+
+// ---------------------------------------------------------------------------------------
+// C08: rename
+// ---------------------------------------------------------------------------------------
+
+/// every link occurrence of a text as (line, character inside the link, url as written)
+fn link_sites(text: &str) -> Vec<(u64, u64, String)> {
+    let mut out = vec![];
+    for (ln, line) in text.lines().enumerate() {
+        let mut from = 0;
+        while let Some(i) = line[from..].find("](") {
+            let close = line[from + i..].find(')').map(|j| from + i + j);
+            // the opening bracket of this link
+            let open = line[..from + i].rfind('[');
+            if let (Some(o), Some(c)) = (open, close) {
+                let url = line[from + i + 2..c].to_string();
+                let col = line[..o].encode_utf16().count() as u64 + 1;
+                out.push((ln as u64, col, url));
+                from = c;
+            } else {
+                break;
+            }
+        }
+    }
+    out
+}
+
+/// `vh rename-replay <libraries.ndjson> <events.ndjson> <scratch> [--shard i/n]`
+pub fn cmd_rename(args: &[String]) -> i32 {
+    let mut shard = (0usize, 1usize);
+    if args.len() > 4 && args[3] == "--shard" {
+        let p: Vec<usize> = args[4].split('/').map(|s| s.parse().unwrap()).collect();
+        shard = (p[0], p[1]);
+    }
+    std::panic::set_hook(Box::new(|_| {}));
+    std::fs::create_dir_all(&args[2]).unwrap();
+    let root = std::fs::canonicalize(&args[2]).unwrap().join(format!("n{}", shard.0)).join("lib");
+    let f = std::fs::File::open(&args[0]).expect("libraries");
+    let mut out = std::io::BufWriter::new(std::fs::File::create(&args[1]).expect("events"));
+    let mut n = 0;
+    let segs = |k: &str| -> Vec<String> { k.split('/').map(|x| x.to_string()).collect() };
+    for (ln, line) in std::io::BufReader::new(f).lines().enumerate() {
+        let line = line.unwrap();
+        if line.trim().is_empty() || ln % shard.1 != shard.0 {
+            continue;
+        }
+        let v: Value = serde_json::from_str(&line).unwrap();
+        let init: Vec<Keyed> = serde_json::from_value(v["init"].clone()).unwrap();
+        let mut l = Lib::new();
+        for k in init.iter() {
+            l.put(k);
+        }
+        let lib: BTreeMap<String, String> = l.notes.iter().map(|(k, v)| (k.clone(), v.2.clone())).collect();
+        let mut s = serve(&root, &lib);
+        // the editor has every note open and has saved each once (same text): the index went
+        // through the incremental update path, as in a real session
+        for (k, t) in lib.iter() {
+            let u = furl(&s.root, k);
+            s.client.send_notif("textDocument/didChange", json!({"textDocument":{"uri":u,"version":2},"contentChanges":[{"text":t}]}));
+        }
+        let all_before: Vec<Value> = lib.iter().map(|(k, t)| view(k, t)).collect();
+        for (k, t) in lib.iter() {
+            let dir: Vec<String> = { let mut d = segs(k); d.pop(); d };
+            for (sl, sc, url) in link_sites(t) {
+                let (u, ext) = parse_url(&url);
+                if ext {
+                    continue;
+                }
+                // new names as the user types them at this site
+                let taken = lib.keys().find(|x| *x != k).cloned().unwrap_or_default();
+                let taken_rel = liwe::model::Key::from_file_name(&taken).to_rel_link_url(&dir.join("/"));
+                let own = k.rsplit('/').next().unwrap_or(k).to_string(); // the name of the note holding the link, as typed from its own directory
+                for (cls, new_name) in [("free", "fresh".to_string()), ("free-sub", "sub/fresh".to_string()), ("taken", taken_rel.clone()), ("own", own.clone()), ("same", url.trim_end_matches(".md").to_string())] {
+                    let uri = furl(&s.root, k);
+                    let prep = req(&mut s.client, &mut s.id, "textDocument/prepareRename", json!({"textDocument":{"uri":uri},"position":{"line":sl,"character":sc}}));
+                    let ren = req(&mut s.client, &mut s.id, "textDocument/rename", json!({"textDocument":{"uri":uri},"position":{"line":sl,"character":sc},"newName":new_name}));
+                    let (nu, _) = parse_url(&new_name);
+                    let mut e = json!({"ev":"Rename","case":format!("{}:{}:{}:{}:{}", ln, k, sl, sc, cls),"site":segs(k),"site_dir":dir,"url":u,"new_name":nu,"cls":cls,
+                                       "keys_before":lib.keys().map(|x| segs(x)).collect::<Vec<_>>(),"all_before":all_before,
+                                       "prepare_ok": prep.as_ref().map(|p| !p.is_null()).unwrap_or(false)});
+                    match ren {
+                        Err(err) => {
+                            e["res"] = json!(err);
+                            e["after"] = json!([]);
+                            e["created"] = json!([]);
+                            e["deleted"] = json!([]);
+                        }
+                        Ok(edit) if edit.get("code").is_some() && edit.get("documentChanges").is_none() => {
+                            // the handler's refusal is written into the result
+                            e["res"] = json!("refused");
+                            e["after"] = json!([]);
+                            e["created"] = json!([]);
+                            e["deleted"] = json!([]);
+                        }
+                        Ok(edit) if edit.is_null() => {
+                            e["res"] = json!("no-edit");
+                            e["after"] = json!([]);
+                            e["created"] = json!([]);
+                            e["deleted"] = json!([]);
+                        }
+                        Ok(edit) => match apply_edit(&root, &lib, &edit) {
+                            Err(err) => {
+                                e["res"] = json!(format!("bad-edit:{}", err));
+                                e["after"] = json!([]);
+                                e["created"] = json!([]);
+                                e["deleted"] = json!([]);
+                            }
+                            Ok((after, created, deleted)) => {
+                                e["res"] = json!("ok");
+                                // all notes after the edit; `same` marks the ones that are byte-identical
+                                e["after"] = json!(after.iter().map(|(k2, t2)| { let mut vv = view(k2, t2); vv["same"] = json!(lib.get(k2) == Some(t2)); vv }).collect::<Vec<_>>());
+                                e["created"] = json!(created.iter().map(|x| segs(x)).collect::<Vec<_>>());
+                                e["deleted"] = json!(deleted.iter().map(|x| segs(x)).collect::<Vec<_>>());
+                                e["texts_after"] = json!(after);
+                            }
+                        },
+                    }
+                    e["texts_before"] = json!(lib);
+                    let rc = e["res"].as_str().unwrap_or("").split(':').next().unwrap_or("").to_string();
+                    e["res_class"] = json!(rc);
+                    writeln!(out, "{}", e).unwrap();
+                    n += 1;
+                }
+            }
+        }
+        s.stop();
+    }
+    let _ = std::fs::remove_dir_all(root.parent().unwrap());
+    out.flush().unwrap();
+    println!("{}", json!({"renames": n}));
+    0
+}
